@@ -56,7 +56,9 @@ Record AInv (x : st) : Prop := {
   a_ackfirst : forall s c, lookup s (cstreams x) = Some c -> c_phase c = Opening -> ack_first s (s2c x);
   a_lost : forall s c, lookup s (cstreams x) = Some c -> c_lost c = [];
   a_open1 : forall s, cnt (is_qopen s) (c2s x) <= 1;
-  a_open0 : forall s, has_srv s x = true -> cnt (is_qopen s) (c2s x) = 0 }.
+  a_open0 : forall s, has_srv s x = true -> cnt (is_qopen s) (c2s x) = 0;
+  (* a failed write never deletes the routing entry *)
+  a_routed : forall s c, lookup s (cstreams x) = Some c -> c_unrouted c = false }.
 
 Definition Inv (x : st) : Prop := AInv x /\ (lost x = false -> LInv x).
 
